@@ -354,7 +354,7 @@ def replay(w):
 
 
 def cases(tier, kind):
-    k = (3 if kind == "clustalo" else 2) if tier == "quick" else 4
+    k = (3 if kind == "clustalo" else 2) if tier == "quick" else (4 if kind == "clustalo" else 3)
     out = []
     for first in range(len(OPS)):
         ops = [z3.Int(f"op{i}") for i in range(k)]
